@@ -48,7 +48,9 @@ Definition EBADF : N := 9.
 Definition EACCES : N := 13.
 Definition EEXIST : N := 17.
 Definition EISDIR : N := 21.
+Definition EFBIG : N := 27.
 Definition ENOSPC : N := 28.
+Definition EPIPE : N := 32.
 Definition ELOOP : N := 40.
 
 Inductive sysres (A : Type) : Type :=
